@@ -879,6 +879,11 @@ class Run:
         c = self.content(lst, heap)
         return V(v.t.rec, nth(c.z, idx))
 
+    def sref_value(self, v, heap=None):
+        lst, idx = v.z
+        c = self.content(lst, heap)
+        return V(v.t.vset, nth(c.z, idx))
+
     def lref_store(self, v, rec_term):
         lst, idx = v.z
         c = self.content(lst)
@@ -903,6 +908,8 @@ class Run:
             return records.as_rec(self, v)
         if v.t.kind == "lref":
             return self.lref_value(v)
+        if v.t.kind == "sref":
+            return self.sref_value(v)
         if v.t.heap or v.t is T.Const:
             raise Unsupported("cannot store %s inside a data value" % v.t)
         return v
